@@ -48,7 +48,7 @@ EXPLANATION = (
     'resampler), finiteness of every sample, absence of OPUS_INTERNAL_ERROR - these need a relational whole-program '
     'analysis that is not in reach.')
 
-CONFIGS = {'quick': ['float'], 'thorough': ['float', 'fixed']}
+CONFIGS = {'quick': ['float', 'custom'], 'thorough': ['float', 'fixed', 'custom']}     # custom: R01.12 only (signalling byte)
 
 SITES = os.path.join(VERIF, 'spec', 'c01_index_sites.json')
 
@@ -63,6 +63,7 @@ def setup(rep, tier):
     rep.minimum('R01.8', 2)
     rep.minimum('R01.9', 1)
     rep.minimum('R01.10', 20)
+    rep.minimum('R01.12', 2)
 
 
 class Px:
@@ -779,7 +780,50 @@ def r01_11(rep, prog):
     return n
 
 
+# ------------------------------------------------------------------ R01.12
+def r01_12(rep, prog):
+    """the CELT frame decoder reads the packet itself only in custom-modes builds (the signalling byte): every direct read
+    `data[k]` / `*data` through its packet parameter happens with `len > k` established (interval analysis of len at the
+    read; data and len are stepped together).  In the other configurations the function has no direct read and the rule records that."""
+    f = prog.fn('celt_decode_with_ec_dred') if prog.has_fn('celt_decode_with_ec_dred') else prog.fn('celt_decode_with_ec')
+    rep.functions.add(f.name)
+    pd = f.param_index('data')
+    pl = f.param_index('len')
+    if pd is None or pl is None:
+        rep.unresolved('R01.12', '%s: %s has no (data, len) parameters' % (prog.config, f.name))
+        return 0
+    kd, kl = ('param', pd), ('param', pl)
+    an = absint.Analyzer(prog, f)
+    n = 0
+    for b, i, nd in an.cf.find(lambda x: sx.kind(x) in ('idx', 'deref')):
+        base = sx.strip(nd[1])
+        if sx.key(base) != kd:
+            continue
+        st = an.state_before_node(b, i, nd)
+        if st is None:
+            continue
+        n += 1
+        k = an.ev(nd[2], st) if sx.kind(nd) == 'idx' else absint.const(0)
+        ln = st.get(kl)
+        if ln is None:
+            ln = an._key_range(kl)
+        # len is decremented together with the pointer: what must hold is  index < len  for the current pair
+        need = absint.hi(k) + 1
+        where = '%s:%s' % (f.file, sx.line(nd))
+        inst = '%s:%s reads `%s` only with len >= %d' % (prog.config, f.name, sx.show(nd)[:20], need)
+        if absint.lo(ln) >= need:
+            rep.holds('R01.12', inst, where, 'len in %s at the read' % absint.show(ln))
+        else:
+            rep.violated('R01.12', inst, where, 'len may be %s at the read: an empty packet (len == 0, data != NULL) is read one byte past its end' % absint.show(ln), key='%s:packet-read:%s' % (f.name, sx.show(nd)[:12]))
+    if n == 0:
+        rep.holds('R01.12', '%s:%s has no direct packet read (range decoder only)' % (prog.config, f.name), f.where(), 'no `data[k]` / `*data` through the packet parameter')
+    return n
+
+
 def check(rep, prog, tier):
+    r01_12(rep, prog)
+    if prog.config == 'custom':
+        return
     if r01_11(rep, prog) < 8:
         rep.unresolved('R01.2', 'fewer than 8 TOC-helper calls on a (packet, len) pair found')
     r01_10(rep, prog)
